@@ -45,7 +45,18 @@ _paths_cache = {}
 STUBS = {
     "": None,
     "recv-handlers": lambda callee: callee.get("name", "").startswith("process_recv_v"),
+    "ids": None,
 }
+
+
+def _inline_ids(ex, callee, info):
+    if explore.default_inline(ex, callee, info):
+        return True
+    s = callee.get("impl_self", "")
+    return s.startswith("mqtt::connection::packet_id_manager::PacketIdManager<") or s.startswith("mqtt::common::value_allocator::ValueAllocator<")
+
+
+INLINE = {"ids": _inline_ids}
 
 
 def paths(F, fn_path, loop_k=1, closure_k=1, tag=""):
@@ -64,7 +75,7 @@ def paths(F, fn_path, loop_k=1, closure_k=1, tag=""):
             return ps
         except Exception:
             pass
-    ex = explore.Explorer(F, loop_k=loop_k, closure_k=closure_k, stub_pred=STUBS[tag])
+    ex = explore.Explorer(F, loop_k=loop_k, closure_k=closure_k, stub_pred=STUBS[tag], inline_pred=INLINE.get(tag))
     ps = ex.run(fn_path)
     res = {"paths": ps, "interned": ex.interned_rev, "opaque": sorted(ex.stats["opaque"]), "inlined": sorted(ex.stats["inlined"])}
     tmp = fname + ".%d.tmp" % os.getpid()
@@ -387,3 +398,12 @@ def agg_field(F, v, name):
 
 def wire_value(F, adt, variant):
     return F.discr_map(adt)[variant]
+
+
+def expand_all(interned, t, depth=12):
+    """Substitute interned sub-terms ('#', i) back (bounded depth) for inspection."""
+    if not isinstance(t, tuple) or depth <= 0:
+        return t
+    if len(t) == 2 and t[0] == "#" and isinstance(t[1], int):
+        return expand_all(interned, interned.get(t[1], t), depth - 1)
+    return tuple(expand_all(interned, x, depth - 1) for x in t)
